@@ -1892,17 +1892,12 @@ example :
   decide +kernel
 end Ex
 
-/-! ### 9a'. … but negative responses still skip the pool's *answer* filter
-(`C19.NegativeResponseAnswerFilterSkipped`, open)
+/-! ### 9a'. negative responses go through the pool's *answer* filter too  (finding fixed by a600360)
 
-Full-strength statement (FALSE for the code as it is):
-  `∀ net pool q st e, (poolLookup cfg net pool q st).2 = .error e →
-      every address record carried by `e` passes `cfg.answerFilter``
-(and hence the same for `lookup`, the response cache and the error `resolve` returns).
-`NameServerPool::send` applies the answer filter after `lookup.await?`, i.e. to `Ok` responses only;
-`strip_out_of_bailiwick` removes only out-of-bailiwick records.  Proved instead: the payload is
-part of the response's authority/additional sections, so the statement holds for every negative
-response without a denied address there (`¬ negativeWithDeniedAddress`). -/
+Before the fix `NameServerPool::send` applied the answer filter to `Ok` responses only (class
+`C19.NegativeResponseAnswerFilterSkipped`); the model then only satisfied `negative_answers_partial`
+(kept below).  With `strip_denied_addresses` the statement holds at full strength:
+`answers_allowed` (§15) covers negative outcomes as well. -/
 
 theorem negative_answers_partial {f : Acs} {q : Query} {r : Response} {e : Err}
     (hclean : negativeWithDeniedAddress f q r = false) (h : fromResponse q r = .error e) :
@@ -1916,23 +1911,24 @@ theorem negative_answers_partial {f : Acs} {q : Query} {r : Response} {e : Err}
   exact hclean x hsub
 
 namespace Ex
-/-- the `a.` server answers everything with NXDOMAIN-free NODATA carrying `w.a. A 666` in the
-authority section; the answer filter denies 666 -/
+/-- the `a.` server answers everything with NODATA carrying `w.a. A 666` in the authority
+section; the answer filter denies 666 -/
 def deniedNet : Net := fun _ _ =>
   .msg { rcode := 0, aa := true, answers := [],
          authorities := [⟨nA, 300, .soa 300⟩, ⟨nWA, 300, .a 666⟩], additionals := [] }
 
 def cfgDeny : Config := { cfg 24 with answerFilter := ⟨[], [⟨false, 666, 32⟩]⟩ }
 
-/-- counter-example (replay `corpus/C19/negative-answer-with-denied-address.case`): the denied
-address, owned by a name inside the zone, is in the error `lookup` returns and in the cache -/
+/-- regression example (replay `corpus/C19/negative-answer-with-denied-address.case`, the
+counter-example before a600360): the response has the historic shape, and neither the error
+`lookup` returns nor the cache entry carries the denied address any more (the SOA is kept) -/
 example :
     let res := lookup cfgDeny deniedNet ⟨nNA, T_AAAA⟩ nA ⟨[rootIp], nA⟩ St.empty
     (match res.2 with
-      | .error e => (errRecords e).any fun x => !addrAllowed cfgDeny.answerFilter x
+      | .error e => (errRecords e).all (addrAllowed cfgDeny.answerFilter) && !(errRecords e).isEmpty
       | .ok _ => false) = true ∧
     (match rcGet res.1.rcache ⟨nNA, T_AAAA⟩ with
-      | some (.error e) => (errRecords e).any fun x => !addrAllowed cfgDeny.answerFilter x
+      | some (.error e) => (errRecords e).all (addrAllowed cfgDeny.answerFilter)
       | _ => false) = true ∧
     negativeWithDeniedAddress cfgDeny.answerFilter ⟨nNA, T_AAAA⟩
       { rcode := 0, aa := true, answers := [],
@@ -2655,6 +2651,127 @@ theorem answerFilter_allowed {f : Acs} {r r' : Response} (h : answerFilter f r =
       simp only [Response.all, List.mem_append, List.mem_filter] at hx
       rcases hx with (hx | hx) | hx <;> exact hx.2
 
+/-! negative outcomes: what `strip_denied_addresses` leaves passes the answer filter -/
+
+theorem noIp_of_rtype {x : Record} (h : x.rtype = T_SOA ∨ x.rtype = T_NS) : x.data.ip? = none := by
+  cases hd : x.data <;>
+    simp_all [Record.rtype, RData.rtype, RData.ip?, T_SOA, T_NS, T_A, T_AAAA, T_CNAME, T_TXT]
+
+theorem addrAllowed_of_noIp {f : Acs} {x : Record} (h : x.data.ip? = none) :
+    addrAllowed f x = true := by
+  unfold addrAllowed; rw [h]
+
+theorem addrAllowed_of_allowsAll {f : Acs} (h : f.allowsAll = true) (x : Record) :
+    addrAllowed f x = true := by
+  unfold addrAllowed
+  split
+  · simp [denied_of_allowsAll h]
+  · rfl
+
+/-- shape of the error `from_response` builds: the SOA is an SOA record, the referral entries are
+NS records -/
+def ErrShape : Err → Prop
+  | .noRecords _ soa ns _ _ =>
+    (∀ s, soa = some s → s.rtype = T_SOA) ∧ ∀ en ∈ ns, en.1.rtype = T_NS
+  | _ => True
+
+theorem fromResponse_err_shape {q : Query} {r : Response} {e : Err}
+    (h : fromResponse q r = .error e) : ErrShape e := by
+  unfold fromResponse at h
+  split at h
+  · cases h; trivial
+  · split at h
+    · cases h
+      refine ⟨?_, ?_⟩
+      · intro s hs
+        have := List.find?_some hs
+        simpa using this
+      · intro en hen
+        simp only [List.mem_map, List.mem_filter] at hen
+        obtain ⟨x, ⟨_, hx⟩, rfl⟩ := hen
+        simpa using hx
+    · cases h
+
+theorem trySend_err (net : Net) (q : Query) : ∀ (ips : List Ip) (st : St) (e : Err),
+    (trySend net q ips st).2 = .error e → e = .io ∨ ∃ r, fromResponse q r = .error e := by
+  intro ips
+  induction ips with
+  | nil => intro st e h; simp only [trySend] at h; cases h; exact Or.inl rfl
+  | cons ip rest ih =>
+    intro st e h
+    unfold trySend at h
+    dsimp only at h
+    split at h
+    · exact ih _ e h
+    · rename_i r0 _
+      exact Or.inr ⟨r0, h⟩
+
+theorem stripDenied_allowed {f : Acs} {e : Err} (hshape : ErrShape e) :
+    ∀ x ∈ errRecords (stripDenied f e), addrAllowed f x = true := by
+  cases e with
+  | noRecords nx soa ns auths t =>
+    intro x hx
+    simp only [stripDenied, errRecords, List.mem_append, Option.mem_toList, List.mem_flatMap,
+      List.mem_map, List.mem_filter, List.mem_cons] at hx
+    rcases hx with (hx | hx) | ⟨e', ⟨e0, he0, rfl⟩, hx⟩
+    · exact addrAllowed_of_noIp (noIp_of_rtype (Or.inl (hshape.1 x hx)))
+    · exact hx.2
+    · rcases hx with rfl | hx
+      · exact addrAllowed_of_noIp (noIp_of_rtype (Or.inr (hshape.2 e0 he0)))
+      · exact (List.mem_filter.1 hx).2
+  | _ => intro x hx; simp [stripDenied, errRecords] at hx
+
+theorem poolLookup_err_allowed (pool : Pool) (q : Query) (st : St) (e : Err)
+    (h : (poolLookup cfg net pool q st).2 = .error e) : ∀ x ∈ errRecords e, AnsOK cfg x := by
+  have ht := trySend_err net q pool.ips { st with lookups := st.lookups + 1 }
+  unfold poolLookup at h
+  dsimp only at h
+  split at h
+  · -- the answer filter turned a response into "everything stripped"
+    rename_i st1 r heq
+    dsimp only at h
+    unfold answerFilter at h
+    split at h
+    · cases h
+    · dsimp only at h
+      split at h
+      · cases h; intro x hx; simp [errRecords] at hx
+      · cases h
+  · rename_i st1 e0 heq
+    rw [heq] at ht
+    dsimp only at h
+    by_cases hall : cfg.answerFilter.allowsAll = true
+    · intro x _
+      exact addrAllowed_of_allowsAll hall x
+    · simp only [hall, Bool.false_eq_true, ↓reduceIte, Except.error.injEq] at h
+      subst h
+      rcases ht e0 rfl with rfl | ⟨r, hr⟩
+      · intro x hx; simp [stripDenied, errRecords] at hx
+      · exact stripDenied_allowed (fromResponse_err_shape hr)
+
+theorem stripErr_sub (zone : Name) (e : Err) :
+    ∀ x ∈ errRecords (stripErr zone e), x ∈ errRecords e := by
+  cases e with
+  | noRecords nx soa ns auths t =>
+    intro x hx
+    simp only [stripErr, errRecords, List.mem_append, Option.mem_toList, List.mem_flatMap,
+      List.mem_map, List.mem_filter, List.mem_cons] at hx ⊢
+    rcases hx with (hx | hx) | ⟨e', ⟨e0, ⟨he0, _⟩, rfl⟩, hx⟩
+    · left; left
+      cases soa with
+      | none => simp at hx
+      | some s =>
+        by_cases hs : isSubzone zone s.name = true
+        · simpa [hs] using hx
+        · simp [hs] at hx
+    · left; right; exact (mem_bailiwick hx).1
+    · right
+      refine ⟨e0, he0, ?_⟩
+      rcases hx with rfl | hx
+      · left; rfl
+      · right; exact (mem_bailiwick hx).1
+  | _ => intro x hx; simp [stripErr, errRecords] at hx
+
 theorem poolLookup_allowed (pool : Pool) (q : Query) (st : St) (r : Response)
     (h : (poolLookup cfg net pool q st).2 = .ok r) : ∀ x ∈ r.all, AnsOK cfg x := by
   unfold poolLookup at h
@@ -2667,32 +2784,39 @@ theorem sub_all_mem {a b : Response} (h : Sub a b) : ∀ x ∈ a.all, x ∈ b.al
   fun _ hx => h.all.subset hx
 
 theorem lookup_allowed (q : Query) (zone : Name) (pool : Pool) (st : St) :
-    (∀ e ∈ (lookup cfg net q zone pool st).1.rcache, e ∈ st.rcache ∨ (∃ e0, e = (q, .error e0)) ∨
+    (∀ e ∈ (lookup cfg net q zone pool st).1.rcache, e ∈ st.rcache ∨
+      (∃ e0, e = (q, .error e0) ∧ ∀ x ∈ errRecords e0, AnsOK cfg x) ∨
       ∃ r, e = (q, .ok r) ∧ ∀ x ∈ r.all, AnsOK cfg x) ∧
-    (∀ r, (lookup cfg net q zone pool st).2 = .ok r → ∀ x ∈ r.all, AnsOK cfg x) := by
+    (∀ r, (lookup cfg net q zone pool st).2 = .ok r → ∀ x ∈ r.all, AnsOK cfg x) ∧
+    (∀ e, (lookup cfg net q zone pool st).2 = .error e → ∀ x ∈ errRecords e, AnsOK cfg x) := by
   have hp := poolLookup_allowed (cfg := cfg) (net := net) pool q
+    { st with asked := (pool.zone, zone, q) :: st.asked }
+  have hpe := poolLookup_err_allowed (cfg := cfg) (net := net) pool q
     { st with asked := (pool.zone, zone, q) :: st.asked }
   have hf := poolLookup_frame cfg net pool q { st with asked := (pool.zone, zone, q) :: st.asked }
   unfold lookup
   dsimp only
   split
   · rename_i st1 e heq
-    rw [heq] at hf
-    refine ⟨?_, fun r hr => by cases hr⟩
+    rw [heq] at hf hpe
+    have he : ∀ x ∈ errRecords (stripErr zone e), AnsOK cfg x :=
+      fun x hx => hpe e rfl x (stripErr_sub zone e x hx)
+    refine ⟨?_, fun r hr => (by cases hr), fun e' he' => (by cases he'; exact he)⟩
     intro x hx
     rcases cacheErr_mem hx with h | h
-    · right; left; exact ⟨_, h⟩
+    · right; left; exact ⟨_, h, he⟩
     · left; rw [hf.1] at h; exact h
   · rename_i st1 r heq
     rw [heq] at hp hf
     have hr := hp r rfl
     split
-    · refine ⟨?_, fun r hr => by cases hr⟩
-      intro x hx; left; rw [hf.1] at hx; exact hx
+    · refine ⟨?_, fun r hr => (by cases hr), ?_⟩
+      · intro x hx; left; rw [hf.1] at hx; exact hx
+      · intro e' he'; cases he'; intro x hx; simp [errRecords] at hx
     · rename_i r' hfil
       have hr' : ∀ x ∈ r'.all, AnsOK cfg x :=
         fun x hx => hr x (sub_all_mem (filterResponse_sub hfil) x hx)
-      refine ⟨?_, fun r2 h2 => by cases h2; exact hr'⟩
+      refine ⟨?_, fun r2 h2 => (by cases h2; exact hr'), fun e' he' => (by cases he')⟩
       intro x hx
       rcases cacheOk_mem hx with h | h
       · right; right; exact ⟨r', h, hr'⟩
@@ -2716,7 +2840,7 @@ theorem cacheAns_stable (cfg : Config) (net : Net) :
     exact h q' r hm
   lookup := by
     intro st pool q zone h _ _ q' r hm
-    rcases (lookup_allowed (cfg := cfg) (net := net) q zone pool st).1 _ hm with h' | ⟨e0, h'⟩ | ⟨r', h', hr'⟩
+    rcases (lookup_allowed (cfg := cfg) (net := net) q zone pool st).1 _ hm with h' | ⟨e0, h', _⟩ | ⟨r', h', hr'⟩
     · exact h q' r h'
     · cases h'
     · cases h'; exact hr'
@@ -2731,7 +2855,7 @@ theorem cacheAns_stable (cfg : Config) (net : Net) :
 
 theorem answerQuery_ans (q : Query) (pool : Pool) (st : St) (h : CacheAns cfg st) (r : Response)
     (hr : (answerQuery cfg net q pool st).2 = .ok r) : ∀ x ∈ r.all, AnsOK cfg x := by
-  have hl := (lookup_allowed (cfg := cfg) (net := net) q pool.zone pool st).2
+  have hl := (lookup_allowed (cfg := cfg) (net := net) q pool.zone pool st).2.1
   unfold answerQuery at hr
   split at hr
   · cases hr
@@ -2844,18 +2968,242 @@ theorem resolveFuel_ans : ∀ f, ResAns cfg (resolveFuel cfg net f) := by
       · exact resolveMiss_ans ih q d st h r hr
     · exact resolveMiss_ans ih q d st h r hr
 
-/-- **`answers_allowed`**: for every network, a message returned by `Recursor::resolve` carries no
-address record the answer filter denies, and neither does any positive entry the resolution leaves
-in the response cache.  (Negative outcomes are not covered: finding 9a.) -/
-theorem answers_allowed (cfg : Config) (net : Net) (q : Query) (st : St) (h : CacheAns cfg st) :
-    CacheAns cfg (resolve cfg net q st).1 ∧
-    ∀ r, (resolve cfg net q st).2 = .ok r → ∀ x ∈ r.all, AnsOK cfg x := by
-  refine ⟨resolve_stable (cacheAns_stable cfg net) q st h, ?_⟩
-  intro r hr
-  unfold resolve at hr
-  split at hr
-  · cases hr
-  · exact (resolveFuel_ans (cfg := cfg) (net := net) _).2 q 0 { st with cnames := 0 } h r hr
+/-- no negative cache entry carries an address the answer filter denies -/
+def CacheAnsNeg (cfg : Config) (st : St) : Prop :=
+  ∀ q e, (q, Except.error e) ∈ st.rcache → ∀ x ∈ errRecords e, AnsOK cfg x
+
+theorem cacheAnsNeg_stable (cfg : Config) (net : Net) :
+    Stable cfg net (CacheAnsNeg cfg) (fun _ => True) (fun _ _ => True) (fun _ _ => True)
+      (fun _ => True) where
+  root := trivial
+  cached := fun _ _ _ _ _ => trivial
+  respCached := fun _ _ _ _ _ => trivial
+  respLookup := fun _ _ _ _ _ _ => trivial
+  fresh := fun _ _ _ _ _ _ _ _ => trivial
+  rezone := fun _ _ _ => trivial
+  poolLookup := by
+    intro st pool q h _ q' e hm
+    rw [(poolLookup_frame cfg net pool q st).1] at hm
+    exact h q' e hm
+  lookup := by
+    intro st pool q zone h _ _ q' e hm
+    rcases (lookup_allowed (cfg := cfg) (net := net) q zone pool st).1 _ hm with h' | ⟨e0, h', he0⟩ | ⟨r', h', _⟩
+    · exact h q' e h'
+    · cases h'; exact he0
+    · cases h'
+  nsPut := fun st z p h _ => h
+  askSelf := fun _ _ => trivial
+  fitRoot := fun _ => trivial
+  fitHead := fun _ _ _ _ => trivial
+  fitTail := fun _ _ _ _ => trivial
+  fitCached := fun _ _ _ _ _ _ _ _ => trivial
+  fitFresh := fun _ _ _ _ _ => trivial
+  cnames := fun st n h => h
+
+theorem ansNeg_of_cache {st : St} (h : CacheAnsNeg cfg st) {q : Query} {e : Err}
+    (hg : rcGet st.rcache q = some (.error e)) : ∀ x ∈ errRecords e, AnsOK cfg x := by
+  obtain ⟨k, hk⟩ := rcGet_mem hg
+  exact h k e hk
+
+theorem nsQuery_errAns (zone : Name) (pool : Pool) (st : St) (h : CacheAnsNeg cfg st) (e : Err)
+    (he : (nsQuery cfg net zone pool st).2 = .error e) : ∀ x ∈ errRecords e, AnsOK cfg x := by
+  unfold nsQuery at he
+  split at he
+  · rename_i v hv
+    dsimp only at he
+    subst he
+    exact ansNeg_of_cache h hv
+  · exact (lookup_allowed (cfg := cfg) (net := net) _ _ _ _).2.2 e he
+
+theorem nsStep_errAns (rec : NsRec) (zone : Name) (depth : Nat) (pool : Pool) (st : St)
+    (h : CacheAnsNeg cfg st) (st' : St) (e : Err)
+    (he : nsStep cfg net rec zone depth pool st = (st', .fail e)) :
+    ∀ x ∈ errRecords e, AnsOK cfg x := by
+  unfold nsStep at he
+  split at he
+  · cases he
+  · split at he
+    · cases he; intro x hx; simp [errRecords] at hx
+    · have hq := nsQuery_errAns (cfg := cfg) (net := net) zone pool st h
+      split at he
+      · rename_i st1 e1 heq
+        rw [heq] at hq
+        split at he
+        · cases he; exact hq e rfl
+        · cases he
+      · split at he
+        · cases he
+        · split at he; cases he
+
+theorem nsLoop_errAns {rec : NsRec} (hrec : NsRecOK (CacheAnsNeg cfg) (fun _ => True) rec) :
+    ∀ (zs : List Name) (depth : Nat) (pool : Pool) (st : St), CacheAnsNeg cfg st →
+      ∀ e, (nsLoop cfg net rec zs depth pool st).2 = .error e →
+        ∀ x ∈ errRecords e, AnsOK cfg x := by
+  intro zs
+  induction zs with
+  | nil => intro depth pool st _ e he; simp only [nsLoop] at he; cases he
+  | cons z zs ih =>
+    intro depth pool st h e he
+    have hs := nsStep_stable (cacheAnsNeg_stable cfg net).toStableNs hrec z zs depth pool trivial
+      trivial st h
+    unfold nsLoop at he
+    split at he
+    · rename_i st1 e1 heq
+      cases he
+      exact nsStep_errAns rec z depth pool st h st1 e heq
+    · rename_i st1 d1 p1 heq
+      rw [heq] at hs
+      exact ih d1 p1 st1 hs.1 e he
+
+theorem nsPoolForName_errAns (n : Name) (d : Nat) (st : St) (h : CacheAnsNeg cfg st) (e : Err)
+    (he : (nsPoolForName cfg net n d st).2 = .error e) : ∀ x ∈ errRecords e, AnsOK cfg x :=
+  nsLoop_errAns (nsPoolFuel_stable (cacheAnsNeg_stable cfg net).toStableNs _) _ _ _ _ h e he
+
+theorem answerQuery_errAns (q : Query) (pool : Pool) (st : St) (h : CacheAnsNeg cfg st) (e : Err)
+    (he : (answerQuery cfg net q pool st).2 = .error e) : ∀ x ∈ errRecords e, AnsOK cfg x := by
+  have hl := (lookup_allowed (cfg := cfg) (net := net) q pool.zone pool st).2.2
+  unfold answerQuery at he
+  split at he
+  · rename_i e0 hg
+    cases he
+    exact ansNeg_of_cache h hg
+  · split at he
+    · cases he
+    · exact hl e he
+  · exact hl e he
+
+def ResErrAns (cfg : Config) (rec : ResRec) : Prop :=
+  ResRecOK (CacheAnsNeg cfg) rec ∧
+    ∀ q d st, CacheAnsNeg cfg st → ∀ e, (rec q d st).2 = .error e →
+      ∀ x ∈ errRecords e, AnsOK cfg x
+
+theorem chaseLoop_errAns {rec : ResRec} (hrec : ResErrAns cfg rec) (resp : Response)
+    (qtype depth : Nat) :
+    ∀ (rs chain : List Record) (st : St), CacheAnsNeg cfg st →
+      ∀ e, (chaseLoop rec resp qtype depth rs chain st).2 = .error e →
+        ∀ x ∈ errRecords e, AnsOK cfg x := by
+  intro rs
+  induction rs with
+  | nil => intro chain st _ e he; simp only [chaseLoop] at he; cases he
+  | cons r rs ih =>
+    intro chain st h e he
+    unfold chaseLoop at he
+    split at he
+    · exact ih chain st h e he
+    · rename_i target _
+      split at he
+      · exact ih chain st h e he
+      · dsimp only at he
+        split at he
+        · cases he; intro x hx; simp [errRecords] at hx
+        · have hst : CacheAnsNeg cfg { st with cnames := st.cnames + 1 } := h
+          have hcl := hrec.1 ⟨target, qtype⟩ depth _ hst
+          have her := hrec.2 ⟨target, qtype⟩ depth _ hst
+          split at he
+          · rename_i st1 e1 heq
+            rw [heq] at her
+            cases he
+            exact her e rfl
+          · rename_i st1 r' heq
+            rw [heq] at hcl
+            exact ih _ st1 hcl e he
+
+theorem resolveCnames_errAns {rec : ResRec} (hrec : ResErrAns cfg rec) (resp : Response)
+    (q : Query) (depth : Nat) (st : St) (h : CacheAnsNeg cfg st) (e : Err)
+    (he : (resolveCnames cfg rec resp q depth st).2 = .error e) :
+    ∀ x ∈ errRecords e, AnsOK cfg x := by
+  unfold resolveCnames at he
+  split at he
+  · cases he
+  · split at he
+    · cases he
+    · dsimp only at he
+      split at he
+      · cases he; intro x hx; simp [errRecords] at hx
+      · have hc := chaseLoop_errAns hrec resp q.qtype (depth + 1) resp.all [] st h
+        split at he
+        · rename_i st1 e1 heq
+          rw [heq] at hc
+          cases he
+          exact hc e rfl
+        · cases he
+
+theorem resolveMiss_errAns {rec : ResRec} (hrec : ResErrAns cfg rec) (q : Query) (depth : Nat)
+    (st : St) (h : CacheAnsNeg cfg st) (e : Err)
+    (he : (resolveMiss cfg net rec q depth st).2 = .error e) :
+    ∀ x ∈ errRecords e, AnsOK cfg x := by
+  unfold resolveMiss at he
+  dsimp only at he
+  have hn := nsPoolForName_stable (cacheAnsNeg_stable cfg net).toStableNs
+    (if q.qtype == T_DS then base q.name else q.name) depth st h
+  have hne := nsPoolForName_errAns (cfg := cfg) (net := net)
+    (if q.qtype == T_DS then base q.name else q.name) depth st h
+  split at he
+  · rename_i st1 e1 heq
+    rw [heq] at hne
+    split at he
+    · cases he; exact hne e rfl
+    · cases he; intro x hx; simp [errRecords] at hx
+  · rename_i st1 d1 pool heq
+    rw [heq] at hn
+    have ha := answerQuery_stable (cacheAnsNeg_stable cfg net).toStableNs q pool trivial st1 hn.1
+    have hae := answerQuery_errAns (cfg := cfg) (net := net) q pool st1 hn.1
+    split at he
+    · rename_i st2 e2 heq2
+      rw [heq2] at hae
+      cases he
+      exact hae e rfl
+    · rename_i st2 resp heq2
+      rw [heq2] at ha
+      exact resolveCnames_errAns hrec resp q d1 st2 ha e he
+
+theorem resolveFuel_errAns : ∀ f, ResErrAns cfg (resolveFuel cfg net f) := by
+  intro f
+  induction f with
+  | zero =>
+    refine ⟨resolveFuel_stable (cacheAnsNeg_stable cfg net) 0, ?_⟩
+    intro q d st _ e he
+    simp only [resolveFuel] at he
+    cases he
+    intro x hx; simp [errRecords] at hx
+  | succ f ih =>
+    refine ⟨resolveFuel_stable (cacheAnsNeg_stable cfg net) _, ?_⟩
+    intro q d st h e he
+    unfold resolveFuel at he
+    split at he
+    · rename_i e0 hg
+      cases he
+      exact ansNeg_of_cache h hg
+    · rename_i r0 hg
+      split at he
+      · exact resolveCnames_errAns ih r0 q d st h e he
+      · exact resolveMiss_errAns ih q d st h e he
+    · exact resolveMiss_errAns ih q d st h e he
+
+/-- **`answers_allowed`**: for every network, nothing `Recursor::resolve` returns — a message, or
+the payload of a negative / referral error (since fix a600360) — and no entry, positive or
+negative, that the resolution leaves in the response cache carries an address record the answer
+filter denies. -/
+theorem answers_allowed (cfg : Config) (net : Net) (q : Query) (st : St) (h : CacheAns cfg st)
+    (hn : CacheAnsNeg cfg st) :
+    CacheAns cfg (resolve cfg net q st).1 ∧ CacheAnsNeg cfg (resolve cfg net q st).1 ∧
+    (∀ r, (resolve cfg net q st).2 = .ok r → ∀ x ∈ r.all, AnsOK cfg x) ∧
+    (∀ e, (resolve cfg net q st).2 = .error e → ∀ x ∈ errRecords e, AnsOK cfg x) := by
+  refine ⟨resolve_stable (cacheAns_stable cfg net) q st h,
+    resolve_stable (cacheAnsNeg_stable cfg net) q st hn, ?_, ?_⟩
+  · intro r hr
+    unfold resolve at hr
+    split at hr
+    · cases hr
+    · exact (resolveFuel_ans (cfg := cfg) (net := net) _).2 q 0 { st with cnames := 0 } h r hr
+  · intro e he
+    unfold resolve at he
+    split at he
+    · cases he; intro x hx; simp [errRecords] at hx
+    · exact (resolveFuel_errAns (cfg := cfg) (net := net) _).2 q 0 { st with cnames := 0 } hn e he
+
+theorem cacheAnsNeg_empty (cfg : Config) : CacheAnsNeg cfg St.empty := by
+  intro q e h; cases h
 
 theorem cacheAns_empty (cfg : Config) : CacheAns cfg St.empty := by
   intro q r h; cases h
@@ -3468,7 +3816,7 @@ end returnedErr
 example (cfg : Config) (net : Net) (q : Query) :=
   cached_in_pool_bailiwick cfg net q St.empty cacheClean_empty askedSound_empty
 example (cfg : Config) (net : Net) (q : Query) :=
-  answers_allowed cfg net q St.empty (cacheAns_empty cfg)
+  answers_allowed cfg net q St.empty (cacheAns_empty cfg) (cacheAnsNeg_empty cfg)
 example (cfg : Config) (net : Net) (q : Query) :=
   ns_addrs_allowed cfg net q St.empty (addrInv_empty cfg)
 example (cfg : Config) (net : Net) (q : Query) :=
